@@ -29,6 +29,10 @@ CHECKS = {
    text="Histories: unwrap family moves the very value out iff sole owner (identity-tracked, destructor not run, block freed), else same handle back. Schedules: racing unwraps/drops leave each value moved out to exactly one thread or destroyed exactly once.",
    note="Trusted: reference model, Tok registry, operational memory model of rt::sim; sampled.",
    technique="model-based history testing + schedule fuzzing with conservation and happens-before oracles (proptest)"),
+ "C10": dict(engine="hist-thin", category="exploration", design="5 (C10)",
+   text="Generated histories over ThinArc and all fat/protected/raw/unique/arc-swap views of the same allocations, element-by-element comparison (values, identities, addresses, recorded length, count) against the model after every step; wrong recorded lengths fed to into_thin; with_arc_mut callbacks that mutate, replace, swap or panic.",
+   note="Trusted: reference model, Tok registry, tracking allocator; header/element shapes are witnesses (alignment <,=,>).",
+   technique="model-based property testing of operation histories with fault injection in callbacks (proptest)"),
 }
 NOT_YET = {
 }
@@ -61,6 +65,7 @@ m = {
  },
  "engines": [
    {"name": "sched", "path": "harness/tv/src/sched.rs + harness/rt/src/sim.rs", "serves_properties": ["C02", "C03", "C08", "C09"], "kind_free_text": "schedule engine: generated thread programs under a harness-owned scheduler, operational memory model with stale loads, vector-clock race oracle"},
+   {"name": "hist-thin", "path": "harness/tv/src/hist_thin.rs", "serves_properties": ["C10", "C01", "C03", "C04"], "kind_free_text": "model-based history engine for the thin world (ThinArc and its fat views)"},
    {"name": "hist", "path": "harness/tv/src/hist_sized.rs", "serves_properties": ["C01", "C03", "C04", "C08", "C09"], "kind_free_text": "model-based history engine (proptest-generated op sequences, reference model, tracking allocator, identity-tracked payloads)"},
  ],
  "checks": checks,
